@@ -329,6 +329,10 @@ def gen_doc(rng, tier):
             fn["as_table"] = False
     if rng.random() < 0.5:
         src = dict(text="SOURCE-TXT", as_table=rng.random() < 0.7)
+    # the component's own relative widths (one cell whatever their number: it spans the table)
+    for comp in (fn, src):
+        if comp is not None and rng.random() < 0.3:
+            comp["col_rel_width"] = gen_widths(rng, rng.randint(1, 3))
     for k in ("page_footnote", "page_source"):
         if rng.random() < 0.2:
             page[k] = rng.choice(["first", "last", "all"])
@@ -391,8 +395,8 @@ def expect_section(case, si):
     W = table_width(case["page"])
     fn, src = case.get("footnote"), case.get("source")
     return dict(ncol=ncol, keep=keep, userW=None if uw is None else [fs(x) for x in uw], headers=hs,
-                footW=["1/1"] if fn and fn.get("as_table", True) else None,
-                srcW=["1/1"] if src and src.get("as_table", False) else None,
+                footW=[fs(x) for x in fn.get("col_rel_width", [1])] if fn and fn.get("as_table", True) else None,
+                srcW=[fs(x) for x in src.get("col_rel_width", [1])] if src and src.get("as_table", False) else None,
                 W=fs(W), dispW=[fs(x) for x in disp], eps=EPS_S)
 
 
